@@ -1,6 +1,6 @@
 (* C18 - Resolution results expose every key, service and metadata item correctly. *)
 From Coq Require Import ZArith NArith String List Bool Sorting.Sorted Sorting.Permutation.
-From Sidetree Require Import Json.Json Sidetree.Protocol Sidetree.Composer Sidetree.Applier Sidetree.Transformer.
+From Sidetree Require Import Json.Json Sidetree.Protocol Sidetree.JsonPatch Sidetree.Composer Sidetree.Applier Sidetree.Transformer Sidetree.TransformerProps.
 Import ListNotations.
 Open Scope string_scope.
 
@@ -29,6 +29,54 @@ Theorem C18_ops_permutation : forall (A : Type) (key : A -> anchored_key) l, Per
 Proof. exact @sort_ops_perm. Qed.
 Print Assumptions C18_ops_sorted.
 Print Assumptions C18_ops_permutation.
+
+(* a key is referenced from exactly the relationships named by its purposes (once per mention) *)
+Theorem C18_relationship_exact : forall o did keys purpose r,
+  In r (relationship o did keys purpose) <->
+  exists pk, In pk keys /\ In purpose (string_array (lookup "purposes" pk)) /\ r = JStr (object_id o did (entry_id pk)).
+Proof. exact relationship_exact. Qed.
+Print Assumptions C18_relationship_exact.
+
+(* every service: qualified id, type, endpoint and all its further members *)
+Theorem C18_service_members : forall o did sv,
+  exists m, transform_service o did sv = JObj m /\
+    lookup "id" m = Some (JStr (object_id o did (entry_id sv))) /\
+    lookup "type" m = Some (JStr (string_entry (lookup "type" sv))) /\
+    lookup "serviceEndpoint" m = Some (node (lookup "serviceEndpoint" sv)) /\
+    (forall k v, In (k, v) sv -> k <> "id" -> k <> "type" -> k <> "serviceEndpoint" -> In (k, v) m).
+Proof. exact service_members. Qed.
+Print Assumptions C18_service_members.
+
+(* one context per key type used: no context twice, none missing, none invented *)
+Theorem C18_key_contexts_once : forall ctxs acc, NoDup acc ->
+  NoDup (fold_left add_unique ctxs acc) /\ (forall c, In c (fold_left add_unique ctxs acc) <-> In c acc \/ In c ctxs).
+Proof. exact key_contexts_once. Qed.
+Print Assumptions C18_key_contexts_once.
+
+(* published operations de-duplicated by canonical reference: one entry per reference, and it
+   is the first one of the (sorted) list, i.e. the earliest anchoring *)
+Theorem C18_dedup_nodup : forall (A : Type) (f : A -> string) l seen, NoDup (map f (dedup_by f seen l)).
+Proof. exact @dedup_nodup. Qed.
+Theorem C18_dedup_keeps_first : forall (A : Type) (f : A -> string) l seen x, In x l -> ~ In (f x) seen ->
+  exists y pre post, l = (pre ++ y :: post)%list /\ f y = f x /\ (forall z, In z pre -> f z <> f x) /\ In y (dedup_by f seen l).
+Proof. exact @dedup_keeps_first. Qed.
+Print Assumptions C18_dedup_nodup.
+Print Assumptions C18_dedup_keeps_first.
+
+(* metadata reports the state's items as given *)
+Theorem C18_metadata_items : forall rm info published,
+  let md := metadata_of rm info published in
+  lookup "canonicalId" md = option_map JStr (ti_canonical info) /\
+  lookup "equivalentId" md = option_map (fun l => JArr (map JStr l)) (ti_equivalent info) /\
+  lookup "deactivated" md = (if rm_deactivated rm then Some (JBool true) else None) /\
+  lookup "created" md = (if published then Some (JStr (rfc3339 (rm_created rm))) else None) /\
+  exists method, lookup "method" md = Some (JObj method) /\
+    lookup "published" method = Some (JBool published) /\
+    lookup "recoveryCommitment" method = (if String.eqb (rm_recovery_c rm) "" then None else Some (JStr (rm_recovery_c rm))) /\
+    lookup "updateCommitment" method = (if String.eqb (rm_update_c rm) "" then None else Some (JStr (rm_update_c rm))) /\
+    lookup "anchorOrigin" method = (match rm_origin rm with JNull => None | v => Some v end).
+Proof. exact metadata_items. Qed.
+Print Assumptions C18_metadata_items.
 
 (* Non-vacuity, incl. the pair that a non-lexicographic comparator gets wrong *)
 Example C18_nonvacuous :
